@@ -733,3 +733,64 @@ func I10(rc *RC) {
 		}
 	}
 }
+
+// I13: the two stepping primitives are the odometer. Every other stepper is held against them
+// by the mirror rules (I6, I6b, I6c), so they are the anchor of the family: ndNext increments the
+// innermost coordinate; a coordinate that reaches its extent wraps to 0, takes the offset back by
+// (extent-1) strides and carries into the next axis (the outermost carry is exhaustion);
+// otherwise the offset advances by one stride and the step ends; the offset returned is the one
+// held before the step. singleNext is the unit-stride case (AP.IsVectorLike guarantees all
+// strides are one: rule L0) and reports exhaustion when the tracked coordinate reaches the size.
+// As for the reduction anchors (K9): same statement skeleton and another term is a violation,
+// another skeleton is a restructuring the rule does not judge.
+var i13Anchors = map[string]string{
+	"tensor.(*FlatIterator).ndNext": `%nextIndex = $r.nextIndex
+$r.lastIndex = %nextIndex
+%i = (len($r.shape) - 1)
+for (%i >= 0) ; %i = (%i - 1)
+  $r.track[%i] = ($r.track[%i] + 1)
+  if ($r.shape[%i] == $r.track[%i])
+    if (%i == 0)
+      $r.done = true
+    $r.track[%i] = 0
+    %nextIndex = (%nextIndex - ($r.strides[%i] * ($r.shape[%i] - 1)))
+    continue
+  %nextIndex = ($r.strides[%i] + %nextIndex)
+  break
+$r.nextIndex = %nextIndex
+return $r.lastIndex, nil
+`,
+	"tensor.(*FlatIterator).singleNext": `$r.lastIndex = $r.nextIndex
+$r.nextIndex = ($r.nextIndex + 1)
+$r.track[$r.veclikeDim] = ($r.track[$r.veclikeDim] + 1)
+%tracked = $r.track[$r.veclikeDim]
+if (%tracked >= $r.size)
+  $r.done = true
+return $r.lastIndex, nil
+`,
+}
+
+func I13(rc *RC) {
+	rc.S.Declare("I13", "odometer anchor: ndNext and singleNext - the primitives every other stepper is mirrored against - are the odometer step (increment innermost, wrap to 0 and take back (extent-1) strides on carry, exhaustion on the outermost carry, advance one stride otherwise, return the offset held before the step)", 2)
+	var keys []string
+	for k := range i13Anchors {
+		keys = append(keys, k)
+	}
+	sort.Strings(keys)
+	for _, key := range keys {
+		want := i13Anchors[key]
+		got, _, pos, ok := iCanonText(rc, key)
+		if !ok {
+			rc.S.Undec("I13", key, "-", "unresolved anchor")
+			continue
+		}
+		switch {
+		case got == want:
+			rc.S.Ok("I13", key, pos, "canonical form equals the odometer step")
+		case sameSkeleton(got, want):
+			rc.S.Viol("I13", key, pos, "the stepping primitive deviates from the odometer step: "+firstDiff(got, want)).Sig = firstDiff(got, want)
+		default:
+			rc.S.Undec("I13", key, pos, "the stepping primitive has another statement skeleton than the reference (restructured): not judged")
+		}
+	}
+}
